@@ -253,8 +253,20 @@ def rule_progress(report, prog):
         return None, None, []
     # one command moves at most 15 (read) / 13 (write) blocks -- the length octet of a frame is one byte; the count the tag
     # announces in its attribute block is cut to that before it sizes a command (else bytearray() raises ValueError)
+    # (decided by folding the reader / writer over Nbr / Nbw 1..20 and message lengths with the tag commands modelled, rules/t3model.py;
+    # the shape based reading of the loop below is the fall-back when the evaluator cannot fold the function)
+    from . import t3model
+    folded = {'_read_ndef_data': t3model.read_verdicts(prog), '_write_ndef_data': t3model.write_verdicts(prog)}
+    zero = t3model.zero_stride(prog)
     for fname, attr, limit in (('_read_ndef_data', 'nbr', 15), ('_write_ndef_data', 'nbw', 13)):
         fn = prog.func('nfc.tag.tt3.Type3Tag.NDEF.' + fname)
+        if not any('cannot fold' in v_ for v_ in folded[fname]):
+            n += 1
+            over = [v_ for v_ in folded[fname] if 'a command addresses' in v_]
+            report.check(not over, 'C08-R3', key(fn.qname, 'blocks per command cut to what one frame can carry'), fn.loc(),
+                         'the number of blocks per command is not cut to %d: %s (the command length octet overflows, ValueError out of tag.ndef)'
+                         % (limit, '; '.join(over[:2])))
+            continue
         l_, bound, _ops = _block_step(fn, attr)
         n += 1
         report.check(l_ is not None and bound is not None and 1 <= bound <= limit, 'C08-R3',
@@ -263,7 +275,11 @@ def rule_progress(report, prog):
                      'command length octet overflow (ValueError out of tag.ndef)' % (attr, 121))
     l3, b3, ops3 = _block_step(t3, 'nbr')
     n += 1
-    if l3 is not None:
+    if zero is None or 'cannot fold' not in zero:
+        report.check(zero is None, 'C08-R3', key(t3.qname, 'block loop stride Nbr is tested to be positive'), t3.loc(),
+                     'the block loop uses a tag supplied Nbr as range() step without testing it: an attribute block in which it is 0 (valid '
+                     'checksum): %s' % zero)
+    elif l3 is not None:
         node = [x for x in cfg.nodes if x.kind == 'stmt' and x.ast is l3.iter]
         # the stride is positive: every tag supplied operand of it is tested (refusing `== 0` / `< 1`, or `> 0` passed) on all paths
         # to the loop, and a constant operand is at least 1
